@@ -1,4 +1,5 @@
 """C10 — observers see every dispatch once, in order, after it took effect."""
+from . import session
 from .framework import Failure
 from .sessioncheck import SessionCheck
 
@@ -10,7 +11,7 @@ class C10(SessionCheck):
     inst_kwargs = dict(allow_empty_jobs=True)
     gen_kwargs = dict(p_invalid=0.1, p_query=0.1, p_reset=0.05, p_snapshot=1.0, p_obs=0.25,
                       start_observers_choices=[0, 1, 2, 3, 4, 5, 5, 6, 6], max_events=70, p_cog=0.45,
-                      obs_kinds=(0, 1, 2, 3, 4, 5, 5, 6, 6, 6))
+                      obs_kinds=(0, 1, 2, 3, 4, 5, 5, 6, 6, 6), p_leave=0.06)
     assumptions = ["valid instance: durations >= 0",
                    "observer objects are identified by creation order; a custom recording observer class (harness side) "
                    "records what the dispatcher shows at the moment of each notification"]
@@ -19,6 +20,10 @@ class C10(SessionCheck):
         "DispatcherObserver.__init__ singleton guard, HistoryObserver (coq/model/World.v, Observers.v)",
         "the call ORDER within one notification loop is compared through a harness-side wrapper around each observer "
         "object's update/reset (no change to /repo)"]
+
+    def model_requests(self, case, obs):
+        evs, outs = session.expand_run(case["events"], obs)
+        return super().model_requests(dict(case, events=evs), outs)
 
     def extra_requests(self, case, obs):
         # spec values of the queries a recording observer makes inside update(): on the post-dispatch rows
@@ -32,7 +37,10 @@ class C10(SessionCheck):
 
     def judge(self, case, obs, outs):
         model_out, _cl, specq = outs
-        evs = case["events"]
+        # (event 12 = a dispatch during which a recording observer unsubscribes itself is judged as what it must be
+        # equivalent to: the dispatch, then the unsubscription)
+        evs, obs = session.expand_run(case["events"], obs)
+        case = dict(case, events=evs)
         fails = self.tie_failures(case, obs, model_out)
         subs = []          # tracked from the implementation's own answers
         kinds = []
